@@ -146,7 +146,7 @@ Fixpoint ob (st : list Z) (e : expr) {struct e} : Z * bool :=
   match e with
   | EInt z => capf (Z.abs z) false
   | EBytes _ | EBool _ | ERule _ | EVar _ => (1%Z, false)
-  | EExt _ => (I63, true)
+  | EExt _ | EDouble _ => (I63, true)
   | EFilesize | ECount _ => (MEMB, false)
   | EBound i => capf (nth i st I63) false
   | EReadInt _ a => ((2 ^ 32)%Z, snd (ob st a))
@@ -381,18 +381,21 @@ Definition full_list (s : sdecl) (m : bytes) (y : list (N * N)) : list (N * N) :
    that contains a repetition of something containing a dot or a class: `/(c( xx.)?)+a11/` on
    `A cccc xxccca11` — libyara 4.5.5 reports (11,4) only; boreal and Spec/Regex.v report the seven
    starts 2, 3, 4, 5, 9, 10, 11 (libyara's backward run from the atom `a11` does not take a second
-   iteration of the outer group; with `c` in place of the dot it does).  libyara misses members; its
+   iteration of the outer group; with `c` in place of the dot it does; it also fails when the inner
+   repetition contains a further repetition: `/(xB x((\n){1,3}\x00\x2e{3})?)+.Abxa(c){3}Ba/s`).
+   libyara misses members; its
    list is not the reference for such a string.  Accepted only when boreal's list conforms exactly
    to the specification and contains everything libyara lists. *)
 Definition rep_many (k : rkind) : bool := match k with ZeroOrOne => false | _ => true end.
 Definition has_wild (h : hir) : bool :=
   hsub (fun x => match x with HDot | HClass _ | HMask _ _ _ => true | _ => false end) h.
+Definition has_rep (h : hir) : bool := hsub (fun x => match x with HRep _ _ _ => true | _ => false end) h.
 Definition nested_rep_quirk (s : sdecl) : bool :=
   match s with
   | SRegex n _ _ _ =>
       hsub (fun x => match x with
                      | HRep body k _ =>
-                         rep_many k && hsub (fun z => match z with HRep inner _ _ => has_wild inner | _ => false end) body
+                         rep_many k && hsub (fun z => match z with HRep inner _ _ => has_wild inner || has_rep inner | _ => false end) body
                      | _ => false
                      end) (node_to_hir n)
   | _ => false
